@@ -1,12 +1,13 @@
 """C18 - premultiplied-alpha validity is preserved by every drawing operation."""
 from .. import scenecheck as sc, scene, gen
+from ..gen import f32bits as FB
 from . import _scene
 
 CFG = dict(nops=8, maxdim=8, init="random", p_clip=0.2, p_layer=0.2, p_structured=0.5,
            modes=list(range(gen.N_MODES)),
            draw_kinds=["fill", "fill", "fill", "fillrect", "fillrect", "stroke", "clear", "mask", "drawimage", "drawimagesize", "surf", "surf"])
 RULE = ("random scenes over all 28 blend modes, coverage and clip coverage 0..255, alpha in [0,1], layers, all source kinds, "
-        "copy_surface / blend_surface / blend_surface_with_alpha among the drawing calls, "
+        "copy_surface / blend_surface / blend_surface_with_alpha among the drawing calls, saturated destinations under sources whose alpha varies from pixel to pixel, "
         "premultiplied inputs; every pixel of the surface and of the top layer after every op of the implementation must "
         "satisfy r,g,b <= a; plus the unit sweep of blend(src,dst) over boundary grids in thorough tier")
 KNOWN = "blend mode Color (sw-composite blend::Color, dependency): blend of premultiplied inputs can exceed alpha; trips pack_argb32's debug assertion"
@@ -81,8 +82,48 @@ def concrete(sr, i, k, c, op):
 ASSUME = ["sources and initial destination premultiplied", "blend mode Color is a known open finding (dependency)"]
 
 
+def saturated(ctx, base):
+    """Saturated destinations (opaque white / bright, channels at or near alpha) under sources whose alpha varies from
+    pixel to pixel (images with transparent, half and opaque texels side by side, gradients from transparent to opaque),
+    drawn by the integer fast routes and the general ones, SrcOver and the additive modes: where the weights of source and
+    destination must add up to exactly one"""
+    rng = ctx.rng
+    n = 300 if ctx.tier == "quick" else 4000
+    out = []
+    for j in range(n):
+        W, H = rng.randrange(2, 9), rng.randrange(1, 6)
+        bright = rng.choice([0xffffffff, 0xffffffff, 0xfffefdfc, 0xff00ffff, 0xfefefefe, 0x80808080, 0xffff0000])
+        px = [bright if rng.random() < 0.85 else gen.premul_pixel(rng) for _ in range(W * H)]
+        ops = []
+        for _ in range(rng.randrange(1, 4)):
+            iw, ih = rng.randrange(2, 7), rng.randrange(1, 4)
+            tex = []
+            for _t in range(iw * ih):
+                a = rng.choice([0, 0, 128, 255, 255, 1, 254, rng.randrange(256)])
+                c = lambda: rng.choice([a, a, 0, a // 2, rng.randrange(a + 1)])
+                tex.append((a << 24) | (c() << 16) | (c() << 8) | c())
+            img = "%d %d %s" % (iw, ih, " ".join(gen.hexpx(t) for t in tex))
+            mode = rng.choice([3, 3, 3, 3, 12, rng.randrange(gen.N_MODES)])
+            alpha = FB(rng.choice([1.0, 1.0, 1.0, 0.5, rng.random()]))
+            x, y = float(rng.randrange(-2, W)), float(rng.randrange(-1, H))
+            c = rng.random()
+            if c < 0.4:
+                ops.append("drawimage %d %d %s %d %d 1" % (FB(x), FB(y), img, mode, alpha))
+            elif c < 0.8:
+                ops.append("fillrect %d %d %d %d image %s %s %s %s %d %d 1" % (
+                    FB(x), FB(y), FB(float(rng.randrange(1, W + 2))), FB(float(rng.randrange(1, H + 2))), img,
+                    rng.choice(["pad", "repeat"]), rng.choice(["nearest", "bilinear"]),
+                    scene.xf_tokens((1.0, 0.0, 0.0, 1.0, float(rng.randrange(-2, 3)), float(rng.randrange(-1, 2)))), mode, alpha))
+            else:
+                ops.append("fillrect %d %d %d %d %s %d %d 1" % (
+                    FB(x), FB(y), FB(float(rng.randrange(1, W + 2))), FB(float(rng.randrange(1, H + 2))),
+                    scene.rand_source(rng, W, H, ["linearc", "linear", "radialc"]), mode, alpha))
+        out.append("scene %d %d %d I %s ; %s" % (base + j, W, H, " ".join(gen.hexpx(p) for p in px), " ; ".join(ops)))
+    return out
+
+
 def run(ctx):
-    return _scene.run_property(ctx, CFG, 2000, 30000, RULE, concrete, ASSUME, post=post)
+    return _scene.run_property(ctx, CFG, 2000, 30000, RULE, concrete, ASSUME, post=post, extra_lines=saturated)
 
 
 def replay(ctx, path):
